@@ -357,6 +357,37 @@ def r19_3(chk, facts):
                 else: chk.fail('R19.3', site, fn['file'], c.get('l'), '%s: %s with element count %s; the storage objects are allocated and released one at a time' % (fn['n'], nm, v if v is not None else A.text((c.get('args') or [None])[-1])), None, fn['q'])
     chk.require(n >= 4, 'R19.3: only %d allocation sizes compared' % n)
 
+def r19_6(chk, tier):
+    """unique_ptr::release() handed straight to a call that can throw: if the call fails the object is owned by nobody."""
+    chk.rule('R19.6', 'no ownership gap: the result of unique_ptr::release() is never an argument of a container insertion or another call that may '
+                      'allocate (emplace_back(p.release()) leaks the object when the vector has to grow and that allocation fails); expected '
+                      'count zero, positive control in drivers/control.cpp', floor=1)
+    ctl = False; n = 0
+    for unit in ('core', 'jsonpath', 'jmespath', 'jsonschema', 'patch', 'control'):
+        facts = F.load([unit], tier)
+        if unit not in chk.units: chk.units.append(unit)
+        seen = set()
+        for fn in facts.functions:
+            if fn.get('body') is None or (fn['file'], fn['l']) in seen: continue
+            in_ctl = fn['file'].startswith('drivers/control.cpp')
+            if not in_ctl and not fn['file'].startswith('include/jsoncons'): continue
+            hits = []
+            for c in A.calls_in(fn['body'], no_lambda=True):
+                if A.callee_name(c) in ('emplace_back', 'push_back', 'emplace', 'insert', 'try_emplace', 'insert_or_assign', 'make_unique', 'make_shared'):
+                    for a in c.get('args') or []:
+                        for y in A.calls_in(a):
+                            if A.callee_name(y) == 'release' and 'unique_ptr' in (y.get('cq') or ''): hits.append((c, y))
+            if not hits: continue
+            seen.add((fn['file'], fn['l']))
+            if in_ctl: ctl = True; continue
+            for c, y in hits:
+                n += 1
+                chk.analysed(fn)
+                chk.fail('R19.6', U.site(fn, 'release into %s' % A.callee_name(c)), fn['file'], y.get('l'), '%s: `%s(... .release() ...)` - the object leaves its unique_ptr before the insertion has succeeded; if the container has to grow and the allocation fails the object is leaked' % (
+                    fn['n'], A.callee_name(c)), None, fn['q'])
+    chk.require(ctl, 'R19.6 positive control (release() into emplace_back in drivers/control.cpp) not detected')
+    chk.ok('R19.6', 'drivers/control.cpp positive control', {'control_found': True, 'library_instances': n})
+
 def run(chk, tier, only_rule=None):
     chk.explanation = EXPLANATION
     chk.not_decided = NOT_DECIDED
@@ -365,6 +396,7 @@ def run(chk, tier, only_rule=None):
     r19_1(chk, facts)
     r19_2(chk, facts)
     r19_3(chk, facts)
+    r19_6(chk, tier)
     r19_4(chk, tier)
     from . import c15
     c15.r15_6(chk, F.load(['patch'], tier))
